@@ -34,7 +34,7 @@ ASSUMPTIONS = ['not judged: then-steps naming a state that does not exist, map_a
 THEN_KINDS = ['state entered', 'state not entered', 'state exited', 'state not exited', 'state active', 'state not active',
               'event fired', 'event fired with', 'event fired table', 'event not fired', 'no event fired', 'variable equals',
               'variable not equal', 'expression holds', 'expression not hold', 'final', 'not final']
-REQUIRED_COUNTERS = ['feature_files', 'scenarios', 'then_steps_checked', 'given_when_steps_checked', 'testing_predicate_checks',
+REQUIRED_COUNTERS = ['features_with_background', 'given_step_after_when', 'feature_files', 'scenarios', 'then_steps_checked', 'given_when_steps_checked', 'testing_predicate_checks',
                      'blocks_without_macro_step', 'same_event_twice_in_step'] + \
     ['then_%s_%s' % (k.replace(' ', '_'), v) for k in THEN_KINDS for v in ('true', 'false')]
 
@@ -162,6 +162,9 @@ def gen_scenario(rnd, ch, idx, earlier, orc):
     def add(st):
         steps.append(st)
         orc.do_step(st[0], st[1], st[2])
+
+    def add_count(name):
+        orc.acc.count(name)
     for _ in range(rnd.randint(0, 2)):
         add(action('given'))
     for blk in range(rnd.randint(1, 3)):
@@ -170,6 +173,9 @@ def gen_scenario(rnd, ch, idx, earlier, orc):
         else:
             for _ in range(rnd.randint(1, 3)):
                 add(action('when'))
+        if rnd.random() < 0.2:
+            add(action('given'))        # legal, if unusual: a given step between the when steps and the assertions
+            add_count('given_step_after_when')
         orc.monitoring = False
         it, mon = orc.it, orc.mon
         ent = [x for m_ in mon for x in m_.entered_states]
@@ -234,8 +240,13 @@ def gen_scenario(rnd, ch, idx, earlier, orc):
     return steps
 
 
-def feature_text(name, scenarios):
+def feature_text(name, scenarios, background=()):
     lines = ['Feature: %s' % name]
+    if background:
+        lines.append('')
+        lines.append('  Background:')
+        for st in background:
+            lines.append('    Given %s' % st[1])
     for sname, steps in scenarios:
         lines.append('')
         lines.append('  Scenario: %s' % sname)
@@ -251,13 +262,15 @@ def feature_text(name, scenarios):
 class Oracle:
     """Plain-interpreter execution of a scenario, exactly as documented."""
 
-    def __init__(self, yaml_text, scenarios, acc):
-        self.yaml_text, self.scenarios, self.acc = yaml_text, dict(scenarios), acc
+    def __init__(self, yaml_text, scenarios, acc, background=()):
+        self.yaml_text, self.scenarios, self.acc, self.background = yaml_text, dict(scenarios), acc, list(background)
 
     def start(self):
         self.it = Interpreter(import_from_yaml(self.yaml_text))
         self.mon = None
         self.monitoring = False
+        for st in self.background:          # behave runs the Background steps before the steps of every scenario
+            self.do_step('given', st[1], st[2])
 
     def run(self, steps):
         self.start()
@@ -367,7 +380,13 @@ def run_case(acc, rnd, tier, case):
     yaml_text = build.dump_yaml(build.to_document(ch, coder=coder))
     scenarios = []
     nscn = 30
-    gen_orc = Oracle(yaml_text, scenarios, acc)
+    background = []
+    if rnd.random() < 0.5:
+        for _ in range(rnd.randint(1, 2)):
+            background.append(('given', rnd.choice(['I send event %s' % rnd.choice(ch['events']), 'I wait 1 second',
+                                                    'I send event %s with p=1' % rnd.choice(ch['events'])]), None))
+        acc.count('features_with_background')
+    gen_orc = Oracle(yaml_text, scenarios, acc, background)
     tries = 0
     while len(scenarios) < nscn and tries < 4 * nscn:
         tries += 1
@@ -391,7 +410,7 @@ def run_case(acc, rnd, tier, case):
         feat_fp = os.path.join(d, 'f.feature')
         out_fp = os.path.join(d, 'out.json')
         open(chart_fp, 'w').write(yaml_text)
-        ftext = feature_text('f%d' % case, scenarios)
+        ftext = feature_text('f%d' % case, scenarios, background)
         open(feat_fp, 'w').write(ftext)
         code = CHILD % dict(repo=REPO, chart=chart_fp, feature=feat_fp, out=out_fp)
         env = dict(os.environ, PYTHONPATH=REPO)
@@ -413,7 +432,7 @@ def run_case(acc, rnd, tier, case):
     if len(els) != len(scenarios):
         acc.note_inconclusive('behave reported %d scenarios, %d were written' % (len(els), len(scenarios)))
         return
-    orc = Oracle(yaml_text, scenarios, acc)
+    orc = Oracle(yaml_text, scenarios, acc, background)
     wit0 = dict(chart_yaml=yaml_text[:6000])
     for (sname, steps), el in zip(scenarios, els):
         try:
@@ -423,6 +442,15 @@ def run_case(acc, rnd, tier, case):
             continue
         acc.count('scenarios')
         got = [s.get('result', {}).get('status') for s in el['steps']]
+        if len(got) == len(steps) + len(background):
+            bg, got = got[:len(background)], got[len(background):]      # behave lists the Background steps first
+            if any(x != 'passed' for x in bg):
+                acc.violation('C19:given-when-step', 'scenario %s: Background steps reported %r' % (sname, bg),
+                              dict(wit0, scenario=steps))
+                return
+        elif len(got) != len(steps):
+            acc.note_inconclusive('behave reported %d steps for a scenario of %d (+%d background) steps' % (len(got), len(steps), len(background)))
+            return
         failed = False
         for st, e, g in zip(steps, exp, got):
             if failed:
